@@ -424,12 +424,12 @@ class BaseCollection(BaseDisplayRepr):
             recursive=False,
             typechecks=True,
         )
-        self_objects = check_format_input_obj(
-            self,
-            allow="sensors+sources+collections",
-            recursive=recursive,
-        )
         for child in remove_objects:
+            self_objects = check_format_input_obj(
+                self,
+                allow="sensors+sources+collections",
+                recursive=recursive,
+            )
             if child in self_objects:
                 rec_obj_remover(self, child)
                 child._parent = None
